@@ -51,7 +51,7 @@ SYMRT_HARNESS(C01_from_constraints) {
   }
   else if (query == 4) {
     std::vector<mpz_class> ea; for (unsigned j = 0; j < n; ++j) ea.push_back(symrt::input(S("e", j), -B, B));
-    mpz_class eb = symrt::input("eb", -B, B), mm = symrt::input("mod", 0, 3);
+    mpz_class eb = symrt::input("eb", -B, B); mpz_class mm = symrt::choose("mod", 4);
     check_relation_with_congruence(ph, R, ea, eb, mm, "C01");
   }
 }
